@@ -164,11 +164,23 @@ def total_order_rules(C, P):
             continue
         stages += 1
         key = 'Element::cmp|optional-key-stage#%d' % stages
-        ok1 = not falls_through(y['none'])
+        def decided_by_constant(blk):
+            """the arm starting at this block does nothing but produce a constant Less / Greater (the result of a helper such as
+            `cmp_present_first`, tested against Equal by the caller afterwards - by `!=`, which the walk does not evaluate)"""
+            for _ in range(4):
+                for st_ in ec.blocks[blk]['stmts']:
+                    if st_['k'] == 'assign' and st_['rv']['k'] == 'agg' and st_['rv'].get('adt') == 'Ordering':
+                        return st_['rv'].get('var') in ('Less', 'Greater')
+                t_ = ec.blocks[blk]['term']
+                if t_['k'] != 'goto':
+                    return False
+                blk = t_['t']
+            return False
+        ok1 = not falls_through(y['none']) or decided_by_constant(y['none'])
         # the None edge of x: a sibling test of the same O-side value whose Some edge does not fall through
         nregion = {p2[0] for p2 in ec.reach_from((x['none'], 0), include_start=True)}
         sib = [z for z in sws if z['side'] == 'O' and z['base'] == y['base'] and z['pos'][0] in nregion and z['pos'][0] != y['pos'][0]]
-        ok2 = bool(sib) and not falls_through(sib[0]['some'])
+        ok2 = bool(sib) and (not falls_through(sib[0]['some']) or decided_by_constant(sib[0]['some']))
         # evidence only: a stage that skips the mixed cases is a total order only if the later stages agree with it; on this tree
         # they do (both elements start with the same key element, see DESIGN.md 11.2), so this is not a verdict
         import flow as _flow
